@@ -95,7 +95,11 @@ func (o *vectorOperator) Series(ctx context.Context) ([]labels.Labels, error) {
 func (o *vectorOperator) initOutputs(ctx context.Context) error {
 	var highCardSide []labels.Labels
 	var errChan = make(chan error, 1)
+	// Never return while the goroutine below still reads from the storage.
+	loaded := make(chan struct{})
+	defer func() { <-loaded }()
 	go func() {
+		defer close(loaded)
 		defer func() {
 			// A panic on this goroutine would terminate the process.
 			if e := recover(); e != nil {
